@@ -5,6 +5,7 @@
 mod c01;
 mod c22;
 mod c26;
+mod casegen;
 mod drive;
 mod dump;
 mod replay;
